@@ -7,7 +7,7 @@ C17 driver: one case per line → one canonical answer per line.
 
 Avro ops (`avro`, `soe`, `ocf`, `ocfz`, `dec`) use a compact grammar:
 
-  schema  S ::= n | b | i | l | f | d | y | s | x<N> | e<N> | ?S | !S | u(S,…) | r(S,…) | aS | mS
+  schema  S ::= n | b | B | i | l | f | d | y | s | x<N> | e<N> | ?S | !S | u(S,…) | r(S,…) | aS | mS
                 (`?` nullable null-first, `!` nullable null-second, `m` map = array of (string, value))
   value   V ::= N | T | F | i<int>; | l<int>; | f<hex8>; | d<hex16>; | y<hex>; | s<hex>; | x<hex>;
               | e<int>; | _ | +V | u<idx>:V | r(V…) | a(V…) | m(s<hex>;V …)
@@ -37,6 +37,7 @@ def parseSchema : Nat → List Char → Option (Schema × List Char)
     match cs with
     | 'n' :: r => some (.null, r)
     | 'b' :: r => some (.boolean, r)
+    | 'B' :: r => some (.boolean, r)   -- boolean held as a sliced BooleanArray on the Rust side
     | 'i' :: r => some (.int, r)
     | 'l' :: r => some (.long, r)
     | 'f' :: r => some (.float, r)
